@@ -150,6 +150,68 @@ pub fn gen_case(seed: u64, k: u64, emu: &str) -> GCase {
     GCase { id: format!("g{seed}-{emu}-{k}"), emu: emu.to_string(), bytes }
 }
 
+/// IGS "state x drawing" family: every enumerated value tuple of the state-setting commands (line / marker type, fill
+/// attributes, colour set, drawing mode, hollow, pen colour, resolution, text effects) followed by drawing commands with
+/// well-formed parameter lists over coordinate classes (origin, inside, last pixel, first pixel outside, far outside).
+/// Quick tier: three drawing commands per setter tuple (rotating); thorough: all of them.
+pub fn igs_state_cases(thorough: bool, seed: u64) -> Vec<GCase> {
+    fn tuples(sets: &[&[i32]]) -> Vec<Vec<i32>> {
+        let mut res: Vec<Vec<i32>> = vec![vec![]];
+        for s in sets { let mut n = vec![]; for t in &res { for v in *s { let mut u = t.clone(); u.push(*v); n.push(u); } } res = n; }
+        res
+    }
+    let small: &[i32] = &[0, 1, 2, 3, 4, 5, 6, 7, 8];
+    let mut setters: Vec<(u8, Vec<i32>)> = vec![];
+    for t in tuples(&[&[1, 2, 3], small, &[0, 1, 3, 9, 99999]]) { setters.push((b'T', t)); }
+    for t in tuples(&[&[0, 1, 2, 3, 4, 5], &[0, 1, 2, 8, 24, 25, 36], &[0, 1, 2]]) { setters.push((b'A', t)); }
+    for t in tuples(&[&[0, 1, 2, 3, 4], &[0, 1, 7, 8, 15, 16, 22, 255]]) { setters.push((b'C', t)); }
+    for t in tuples(&[&[0, 1, 2, 3, 4, 5]]) { setters.push((b'M', t)); }
+    for t in tuples(&[&[0, 1, 2]]) { setters.push((b'H', t)); }
+    for t in tuples(&[&[0, 1, 15, 16], &[0, 7, 8], &[0, 7], &[0, 8]]) { setters.push((b'S', t)); }
+    for t in tuples(&[&[0, 1, 2, 3], &[0, 1, 2, 3, 4]]) { setters.push((b'R', t)); }
+    for t in tuples(&[&[0, 1, 2, 4, 8, 16, 31], &[0, 8, 9, 10, 18, 20], &[0, 1, 2, 3, 4, 5]]) { setters.push((b'E', t)); }
+    let coords: [[i32; 4]; 7] = [[0, 0, 5, 5], [10, 10, 100, 60], [0, 0, 319, 199], [300, 180, 320, 200], [5, 5, 9999, 9999], [319, 199, 0, 0], [0, 0, 99999, 99999]];
+    let mut drawers: Vec<String> = vec![];
+    for c in coords {
+        let [a, b, x, y] = c;
+        drawers.push(format!("L>{a},{b},{x},{y}:"));
+        drawers.push(format!("D>{x},{y}:"));
+        drawers.push(format!("B>{a},{b},{x},{y},0:"));
+        drawers.push(format!("B>{a},{b},{x},{y},1:"));
+        drawers.push(format!("U>{a},{b},{x},{y},1:"));
+        drawers.push(format!("Z>{a},{b},{x},{y}:"));
+        drawers.push(format!("O>{x},{y},{}:", (x - a).abs().min(400)));
+        drawers.push(format!("Q>{x},{y},{},{}:", (x - a).abs().min(400), (y - b).abs().min(400)));
+        drawers.push(format!("V>{x},{y},{},0,90:", (x - a).abs().min(400)));
+        drawers.push(format!("J>{x},{y},{},{},0,270:", (x - a).abs().min(400), (y - b).abs().min(400)));
+        drawers.push(format!("K>{x},{y},{},0,90:", (x - a).abs().min(400)));
+        drawers.push(format!("P>{x},{y}:"));
+        drawers.push(format!("F>{x},{y}:"));
+        drawers.push(format!("f>3,{a},{b},{x},{b},{x},{y}:"));
+        drawers.push(format!("z>3,{a},{b},{x},{b},{x},{y}:"));
+        drawers.push(format!("W>{a},{b},Text@"));
+        drawers.push(format!("G>1,3,{a},{b},{x},{y}:G>2,3,{a},{b}:"));
+        drawers.push(format!("G>0,3,{a},{b},{x},{y},{b},{a}:"));
+        drawers.push(format!("G>1,3,{a},{b},{x},{y}:G>3,3,0,0,{x},{y},{a},{b}:"));
+    }
+    let mut out = vec![];
+    let per = if thorough { drawers.len() } else { 3 };
+    for (i, (letter, t)) in setters.iter().enumerate() {
+        for j in 0..per {
+            let d = &drawers[(i * per + j + seed as usize) % drawers.len()];
+            let mut b = b"G#".to_vec();
+            b.push(*letter);
+            b.push(b'>');
+            b.extend(t.iter().map(|v| v.to_string()).collect::<Vec<_>>().join(",").as_bytes());
+            b.extend(b":");          // commands are chained after ":" (a new "G#" only after a line end)
+            b.extend(d.as_bytes());
+            b.extend(b"\r\n");
+            out.push(GCase { id: format!("s-igs-{}-{}-{}", *letter as char, i, j), emu: "igs".into(), bytes: b });
+        }
+    }
+    out
+}
+
 /// the exhaustive part of the quantifier: every command x every parameter-list length 0..=24 over the digits {0, 1, Z}
 /// (RIP) / 0..=12 parameters (IGS) - the table itself is exported by TLC from spec/gfx/MC_Gfx.tla (gen/gfx_table.ndjson)
 pub fn table_cases(thorough: bool, seed: u64, table: &[Value]) -> Vec<GCase> {
@@ -220,6 +282,7 @@ pub fn c20(a: &Args) {
     crate::term::set_mem_limit(a.u64("mem-mb", 2048));
     let table: Vec<Value> = std::fs::read_to_string(a.str("table", "gen/gfx_table.ndjson")).map(|t| t.lines().filter_map(|l| serde_json::from_str(l).ok()).collect()).unwrap_or_default();
     let mut all = table_cases(thorough, seed, &table);
+    all.extend(igs_state_cases(thorough, seed));
     let n_rand = if thorough { 30000 } else { 3000 };
     for k in 0..n_rand {
         all.push(gen_case(seed, k, if k % 2 == 0 { "rip" } else { "igs" }));
